@@ -173,16 +173,18 @@ theorem moduleDetailAt_same (hpl : c.Plain) (h : SameExceptPasswords c c') (root
     moduleDetailAt c root fs b = moduleDetailAt c' root fs b := by
   have hpl' : c'.Plain := hpl.of_paths h.1
   unfold moduleDetailAt
-  simp only [vSet_plain hpl, vSet_plain hpl', vString_plain hpl, vString_plain hpl']
-  rw [isSet_same h, readFields_same hpl h root hroot fs hfs,
+  simp only [vString_plain hpl, vString_plain hpl']
+  rw [readFields_same hpl h root hroot fs hfs,
     getString_same h (not_password_of_suffix root "client-profile" (by decide))]
   cases b <;> simp [clientProfile_same hpl h]
 
 theorem moduleDetail_same (hpl : c.Plain) (h : SameExceptPasswords c c') (kind name : String)
     (fs : List (String × String × Getter)) (hfs : NoPasswordSuffix fs) (b : Bool) :
     moduleDetail c kind name fs b = moduleDetail c' kind name fs b := by
-  unfold moduleDetail
-  exact moduleDetailAt_same hpl h _ (by have := keyPath_length name; simp; omega) fs hfs b
+  have hpl' : c'.Plain := hpl.of_paths h.1
+  unfold moduleDetail moduleConfigured
+  rw [vChildren_plain hpl, vChildren_plain hpl', children_same h,
+    moduleDetailAt_same hpl h _ (by have := keyPath_length name; simp; omega) fs hfs b]
 
 theorem storageFields_np : NoPasswordSuffix storageFields := .of_bool (by decide)
 theorem evaluatorFields_np : NoPasswordSuffix evaluatorFields := .of_bool (by decide)
@@ -197,15 +199,17 @@ theorem notifierDetailAt_same (hpl : c.Plain) (h : SameExceptPasswords c c') (ro
     notifierDetailAt c root = notifierDetailAt c' root := by
   have hpl' : c'.Plain := hpl.of_paths h.1
   unfold notifierDetailAt
-  simp only [vSet_plain hpl, vSet_plain hpl', vString_plain hpl, vString_plain hpl',
-    isSet_same h, getString_same h (not_password_of_suffix _ "class-name" (by decide)),
+  simp only [vString_plain hpl, vString_plain hpl',
+    getString_same h (not_password_of_suffix _ "class-name" (by decide)),
     moduleDetailAt_same hpl h root hroot _ notifierHTTP_np, moduleDetailAt_same hpl h root hroot _ notifierEmail_np,
     moduleDetailAt_same hpl h root hroot _ notifierSlack_np, moduleDetailAt_same hpl h root hroot _ notifierCommon_np]
 
 theorem notifierDetail_same (hpl : c.Plain) (h : SameExceptPasswords c c') (name : String) :
     notifierDetailResp c name = notifierDetailResp c' name := by
-  unfold notifierDetailResp
-  exact notifierDetailAt_same hpl h _ (by have := keyPath_length name; simp; omega)
+  have hpl' : c'.Plain := hpl.of_paths h.1
+  unfold notifierDetailResp moduleConfigured
+  rw [vChildren_plain hpl, vChildren_plain hpl', children_same h,
+    notifierDetailAt_same hpl h _ (by have := keyPath_length name; simp; omega)]
 
 /-- **Non-interference**: two backends that differ only in the configuration, and there only in
     password values, answer every request identically (and leave the same world behind). -/
